@@ -150,10 +150,41 @@ def rb(cx):
             checks = [c for c in g.nodes if c['kind'] == 'call' and c['name'].rsplit('::', 1)[-1] == 'is_empty' and recv_class(c['args'][0]).endswith('.data')]
             cv = {strip(c['value']) for c in checks}
 
+            lens = {strip(c['value']) for c in g.nodes if c['kind'] == 'call' and c['name'].rsplit('::', 1)[-1] == 'len' and c['args'] and recv_class(c['args'][0]).endswith('.data')}
+
+            def len_guard(d, v):
+                """truth of `len(data) >= 1` implied by taking edge v of a comparison of len(data) with a constant, or None"""
+                from ..core import const_int
+                dd = strip(d)
+                neg = False
+                while dd[0] == 'un' and dd[1] == 'Not':
+                    dd = strip(dd[2])
+                    neg = not neg
+                if dd[0] != 'bin':
+                    return None
+                a, b, op = strip(dd[2]), strip(dd[3]), dd[1]
+                flip = {'Gt': 'Lt', 'Lt': 'Gt', 'Ge': 'Le', 'Le': 'Ge', 'Eq': 'Eq', 'Ne': 'Ne'}
+                if b in lens and const_int(a) is not None:
+                    a, b, op = b, a, flip.get(op, op)
+                if a not in lens or const_int(b) is None:
+                    return None
+                c = const_int(b)
+                truth = (v == 1) != neg
+                table = {('Gt', True): c >= 0, ('Ge', True): c >= 1, ('Ne', True): c == 0, ('Eq', False): c == 0, ('Lt', False): c >= 1, ('Le', False): c >= 0, ('Eq', True): c >= 1}
+                if table.get((op, truth)):
+                    return True
+                empty = {('Eq', True): c == 0, ('Le', True): c == 0, ('Lt', True): c == 1, ('Gt', False): c == 0, ('Ge', False): c == 1, ('Ne', False): c == 0}
+                if empty.get((op, truth)):
+                    return False
+                return None
+
             def step(st, nd, lab):
                 d, v = sw_value(lab)
                 if d is not None and v in (0, 1):
-                    if mentions(d, lambda e: strip(e) in cv):
+                    lg = len_guard(d, v)
+                    if lg is not None:
+                        st = 'nonempty' if lg else 'empty'
+                    elif mentions(d, lambda e: strip(e) in cv):
                         # `!is_empty()` is compiled as a switch on is_empty itself, or on Not(is_empty)
                         neg = mentions(d, lambda e: e[0] == 'un' and e[1] == 'Not')
                         nonempty = (v == 0) != neg
